@@ -40,6 +40,6 @@ namespace ratio
     };
 
   private:
-    var_item &v_itm; // the enum variable whose value has to be decided..
+    const smt::var ev; // the object variable whose value has to be decided (the item itself can be destroyed along with the environment that declared it)..
   };
 } // namespace ratio
